@@ -230,6 +230,15 @@ impl MutableArchive {
     /// This method checks the modified state first, then falls back to the original archive.
     /// This ensures that renamed files can still be read correctly.
     pub fn read_file(&mut self, name: &str) -> Result<Vec<u8>> {
+        // Compressed or encrypted data is decoded by `self.archive`, and a name unknown to the
+        // session's tables is looked up there: make sure that object sees this session's changes
+        // (otherwise a file added here is "not found", a replaced one returns its old content and
+        // a removed one is still readable).
+        if self.dirty && self.hash_table.is_some() {
+            self.flush()?;
+            self.archive = Archive::open(&self._path)?;
+        }
+
         // Try to read using the current modified state first
         match self.read_current_file(name) {
             Ok(data) => Ok(data),
